@@ -15,7 +15,9 @@
         is_nil queue, wait flag, reg, overflow-thread test ...), read in the order in which the model reads them.
    edges_run collects the edges along a trace from a state; the witness lists give, for several configurations, traces
    from the initial state; Cover_proofs.v shows that every transition of the model has the edge of a transition taken
-   in one of these (hence reachable) runs, except three edges of Stw that are proved unreachable.
+   in one of these (hence reachable) runs, except four edges (three branches) of Stw that are proved unreachable.
+   stw_variant_edges / tp_variant_edges are the edges that only the code as found (recheck / chk / reg = false) takes; the
+   runs of the current variant (recheck = true; chk = reg = true) cover all the others.
    No proofs in this file. *)
 Require Import List Bool Arith.
 Require Import IW.CC.Lts.
@@ -131,7 +133,7 @@ Definition stw_edge (c : Stw.cfg) (s : Stw.st) (t : tid) (e : ev) (s' : Stw.st) 
 Definition stw_edges_of_run (c : Stw.cfg) (tr : list (tid * ev)) : list edge :=
   edges_run Stw.st (Stw.step c) (stw_edge c) Stw.init tr.
 
-(* the three edges that no reachable state takes (Cover_proofs.stw_dead_edges_unreachable): loop_step / odisc_step /
+(* the edges that no reachable state takes (Cover_proofs.stw_dead_edges_unreachable): loop_step / odisc_step /
    ddisc_step are shared between the first visit (Locked) and the re-entry (Woken / ODisc / DDisc); the re-entry pc is only
    reached with blocking = true resp. has_cb = true, so the branch for the other value of the configuration flag is dead
    THERE (it is live at Locked):
@@ -140,6 +142,9 @@ Definition stw_edges_of_run (c : Stw.cfg) (tr : list (tid * ev)) : list edge :=
      DDisc -EBcast 0-> DBc1          (queue not empty, needs has_cb = false) *)
 Definition stw_dead_edges : list edge :=
   [ (4, 0, 2, 24, 2); (4, 0, 2, 24, 3); (5, 0, 50, 6, 0); (8, 0, 40, 9, 0) ].
+
+(* taken only by the code as found (recheck = false): the woken submitter links its task although shutdown is set *)
+Definition stw_variant_edges : list edge := [ (4, 0, 50, 6, 1) ].
 
 (* ======================= iwtp ======================= *)
 Definition tp_pc_code (q : bool) (p : Tp.pcT) : nat :=
@@ -184,6 +189,11 @@ Definition tp_edge (c : Tp.cfg) (s : Tp.st) (t : tid) (e : ev) (s' : Tp.st) : ed
 
 Definition tp_edges_of_run (c : Tp.cfg) (tr : list (tid * ev)) : list edge :=
   edges_run Tp.st (Tp.step c) (tp_edge c) (Tp.init c) tr.
+
+(* taken only by the code as found: chk = false: iwtp_schedule with shutdown set links the task / reports OVERFLOW;
+   reg = false: the overflow thread does not find itself in tp->threads (`idx == -1`, "should never be happen") and
+   leaves; the overflow thread is created without being registered *)
+Definition tp_variant_edges : list edge := [ (2, 0, 50, 3, 1); (2, 0, 2, 24, 1); (41, 0, 2, 51, 0); (3, 0, 80, 4, 2) ].
 
 (* ======================= witness runs ======================= *)
 (* The first run of each list is the real trace of the implementation used by Stw_proofs.accepted_eventually_refuted /
@@ -280,3 +290,9 @@ Definition tp_witness : list (Tp.cfg * list (tid * ev)) :=
 
 Definition stw_edges : list edge := flat_map (fun w => stw_edges_of_run (fst w) (snd w)) stw_witness.
 Definition tp_edges : list edge := flat_map (fun w => tp_edges_of_run (fst w) (snd w)) tp_witness.
+
+(* the runs of the current variant of the code *)
+Definition stw_edges_fixed : list edge :=
+  flat_map (fun w => stw_edges_of_run (fst w) (snd w)) (filter (fun w => Stw.recheck (fst w)) stw_witness).
+Definition tp_edges_fixed : list edge :=
+  flat_map (fun w => tp_edges_of_run (fst w) (snd w)) (filter (fun w => Tp.chk (fst w) && Tp.reg (fst w)) tp_witness).
